@@ -376,6 +376,7 @@ Proof.
   rewrite H2, H1. ring.
 Qed.
 
-(* ComponentProjection(P, [0, 0]) on ProductSpace(rn(1), rn(1)): the adjoint assigns instead of accumulating *)
-Lemma projm_repeated_refuted : identity_fails (LProjM [[1]; [1]] [1; 1] [0%nat; 0%nat]).
+(* regression: with the OLD assignment semantics (acc = false; /repo before abf8b3b used it for lists too)
+   ComponentProjection(P, [0, 0]) on ProductSpace(rn(1), rn(1)) violates the identity *)
+Lemma projm_repeated_refuted : identity_fails (LProjM [[1]; [1]] [1; 1] [0%nat; 0%nat] false).
 Proof. witness [1; 0] [1; 0]. Qed.
